@@ -1,8 +1,13 @@
 #!/bin/sh
-# usage: tools/try_seeded.sh <seeded-dir-name> <PROP> [tier] ; applies the seeded change to /repo, runs the check, reverts
-cd /verif
-S=seeded/$1; P=$2; T=${3:-quick}
-git -C /repo apply /verif/$S/patch.diff || { echo "patch does not apply"; exit 2; }
-./run $P $T > /tmp/seeded_$1.log 2>&1; rc=$?
-git -C /repo checkout -- .
-echo "seed=$1 prop=$P tier=$T exit=$rc"; grep -c '^VIOLATION' /tmp/seeded_$1.log; grep -m3 -A1 '^VIOLATION\|INCONCLUSIVE' /tmp/seeded_$1.log | cut -c1-300
+# usage: tools/try_seeded.sh <seed-dir> <PROP> [tier] [extra args for ./run]
+# applies the seeded change to a scratch worktree of /repo, runs the check on
+# it (twin and replay both use that tree), removes the worktree
+d=$(cd "$1" && pwd); prop=$2; tier=${3:-quick}; shift; shift; [ $# -gt 0 ] && shift
+wt=/tmp/vs_try/$(basename "$d").$$
+mkdir -p /tmp/vs_try
+git -C /repo worktree add -q --detach "$wt" HEAD || exit 3
+git -C "$wt" apply "$d/patch.diff" || { git -C /repo worktree remove --force "$wt"; exit 3; }
+cd /verif && VERIF_REPO_ROOT="$wt" VERIF_OUT="$wt/.verif_out" ./run "$prop" "$tier" "$@"
+rc=$?
+git -C /repo worktree remove --force "$wt"; git -C /repo worktree prune
+echo "exit=$rc"
